@@ -10,7 +10,10 @@ pub mod c09;
 pub mod c10;
 pub mod c11;
 pub mod c12;
+pub mod c13;
+pub mod c14;
 pub mod c15;
+pub mod c16;
 pub mod c17;
 pub mod c04;
 pub mod c05;
@@ -34,7 +37,10 @@ pub fn all() -> Vec<Box<dyn Property>> {
         Box::new(c10::P),
         Box::new(c11::P),
         Box::new(c12::P),
+        Box::new(c13::P),
+        Box::new(c14::P),
         Box::new(c15::P),
+        Box::new(c16::P),
         Box::new(c17::P),
         Box::new(c18::P),
         Box::new(c19::P),
